@@ -19,8 +19,9 @@ EXPLANATION = (
     "= unit weights. Every fixed defect keeps a _refuted theorem about the explicitly named OLD variant (mgsm_range_old, mgsm_loop_old, "
     "mgs_preprocess_old, encode_mgs_old, py_int, encode_msc_old). Optimality is relative to the solver specification (DESIGN §4) and sampled "
     "by E2 against exhaustive minima. Completeness of encode_mgs is proved (C15_genset_rows_complete, partition constraints included), hence "
-    "C15_mgs_returns_minimum: the reported size is the least size of a generating multiset from the lower bound on. _partial: adequacy of the "
-    "range's upper end (cut-point construction) is not proved in Coq; it is sampled by E2.")
+    "C15_mgs_returns_minimum: the reported size is the least size of a generating multiset from the lower bound on. The range's upper end suffices without partition "
+    "constraints (C15_range_witness, C15_range_upper_end_suffices, C15_mgs_always_solves; feasibility monotone in k by zero padding); "
+    "_partial only with partition constraints (cut-point construction not proved; sampled by E2).")
 ASSUMPTIONS = ["HiGHS status kOptimal => returned assignment satisfies the rows within 1e-9 and is optimal; kInfeasible => no assignment (solver specification, DESIGN §4)",
                "float instances use dyadic values (exact in doubles); float answers are checked with tolerance 1e-6, integer answers exactly",
                "exhaustive minima: integer multisets over 0..total (total <= 12, size <= 4); set covers over all 2^n subfamilies (n <= 8)"]
